@@ -30,8 +30,8 @@ ENGINES = ['A', 'F']
 FUNCTIONS = ['OperatorDict.__getitem__ / UnaryOperatorDict.__getitem__ / Registry.__getitem__ (membership test before do_codegen/do_compile)',
              'OperatorDict.__call__/_call_binary', 'do_codegen', 'do_compile', 'lambdify', 'func_builder']
 ASSUMPTIONS = ['sequential calls only', 'coefficient kinds: solver terms (stand for every real value), int, float, Fraction, numpy float64 arrays, sympy symbols']
-BOUNDS = {'quick': '29 operators + a registered function x grade-union / random sparse patterns d<=3 x 6 coefficient kinds x histories of <=4 repeats with other patterns interleaved',
-          'thorough': 'more patterns per operator'}
+BOUNDS = {'quick': '29 operators + a registered function x grade-union / random sparse patterns d<=3 x 6 coefficient kinds x histories of <=7 repeats with other patterns interleaved; long histories (200-400 other patterns); histories with failing evaluations / failing generations; per (operator, pattern) generation count',
+          'thorough': 'more patterns per operator, 3x longer long-histories'}
 OUTSIDE = ['concurrent first calls (threads)', 'coefficient types not listed']
 OPTS = {'rlimit': 100_000_000, 'canary_every': 0, 'max_paths': 16}
 EXPLANATION = __doc__
